@@ -37,6 +37,26 @@ var c07Family = map[string]string{ // coarse family of the struct type
 
 var c07Unknown = []string{"Emoji", "note", "PropertyValue"}
 
+// properties that only the named Go type has: written into every document / value of that type and looked for afterwards
+type c07OwnProp struct{ term, field, val string }
+
+var c07Own = map[string][]c07OwnProp{
+	"Object":                {{"context", "Context", "https://example.com/own/context"}},
+	"Actor":                 {{"inbox", "Inbox", "https://example.com/own/inbox"}, {"followers", "Followers", "https://example.com/own/followers"}},
+	"Activity":              {{"actor", "Actor", "https://example.com/own/actor"}, {"object", "Object", "https://example.com/own/object"}, {"target", "Target", "https://example.com/own/target"}},
+	"IntransitiveActivity":  {{"actor", "Actor", "https://example.com/own/actor"}, {"target", "Target", "https://example.com/own/target"}, {"origin", "Origin", "https://example.com/own/origin"}},
+	"Question":              {{"actor", "Actor", "https://example.com/own/actor"}, {"oneOf", "OneOf", "https://example.com/own/one"}, {"anyOf", "AnyOf", "https://example.com/own/any"}},
+	"Collection":            {{"first", "First", "https://example.com/own/first"}, {"current", "Current", "https://example.com/own/current"}},
+	"OrderedCollection":     {{"first", "First", "https://example.com/own/first"}, {"last", "Last", "https://example.com/own/last"}},
+	"CollectionPage":        {{"partOf", "PartOf", "https://example.com/own/partof"}, {"next", "Next", "https://example.com/own/next"}, {"prev", "Prev", "https://example.com/own/prev"}},
+	"OrderedCollectionPage": {{"partOf", "PartOf", "https://example.com/own/partof"}, {"next", "Next", "https://example.com/own/next"}, {"prev", "Prev", "https://example.com/own/prev"}},
+	"Place":                 {{"units", "Units", "m"}},
+	"Profile":               {{"describes", "Describes", "https://example.com/own/describes"}},
+	"Relationship":          {{"subject", "Subject", "https://example.com/own/subject"}, {"object", "Object", "https://example.com/own/object"}, {"relationship", "Relationship", "https://example.com/own/rel"}},
+	"Tombstone":             {{"formerType", "FormerType", "Note"}},
+	"Link":                  {{"href", "Href", "https://example.com/own/href"}, {"rel", "Rel", "https://example.com/own/rel"}},
+}
+
 func structName(it any) string {
 	if it == nil {
 		return "<nil>"
@@ -60,7 +80,7 @@ type emoji struct {
 }
 
 func runC07(seed int64, n int, tier string, outDir string) (*Report, error) {
-	rep := &Report{Exhaustive: true, Rule: "exhaustive: every vocabulary name (W3C list, 51) + 4 generic names + the empty name + 3 unknown names x {registry, JSON top level, JSON in item position, JSON in list position, gob top level, gob nested} x {hooks unset, extension hooks set}; per cell the concrete Go type (reflect) against an independent name->type table, id/name payload, family list membership, IsObject/IsLink/IsCollection, On/To acceptance; Coq: registry/JSON/gob kinds per name against the generated switch tables; non-trivial = every cell with a vocabulary name; distinct by (name, position, hooks)"}
+	rep := &Report{Exhaustive: true, Rule: "exhaustive: every vocabulary name (W3C list, 51) + 4 generic names + the empty name + 3 unknown names x {registry, JSON top level, JSON in item position, JSON in list position, gob top level, gob nested} x {hooks unset, extension hooks set}; per cell the concrete Go type (reflect) against an independent name->type table, id/name payload and the properties only that Go type has, family list membership, IsObject/IsLink/IsCollection, On/To acceptance; Coq: registry/JSON/gob kinds per name against the generated switch tables; non-trivial = every cell with a vocabulary name; distinct by (name, position, hooks)"}
 	hdr := "From AP.Model Require Import Prelude Vocab Bytes Dispatch.\nFrom AP.Gen Require Import Switches.\n" +
 		"Definition registry (n : bytes) : option kind := tag_kind (sw_lookup sw_GetItemByType sw_GetItemByType_default n).\n" +
 		"Definition ok (c : bytes * option kind * option kind * option kind) : bool := let '(n, reg, js, gb) := c in\n" +
@@ -123,7 +143,7 @@ func runC07(seed int64, n int, tier string, outDir string) (*Report, error) {
 					if g != want {
 						rep.Violate(Violation{Op: pos, Input: map[string]any{"type": name, "hooks": hooks}, Expected: want, Observed: g})
 					} else if !payloadOK {
-						rep.Violate(Violation{Op: pos + " payload", Input: map[string]any{"type": name, "hooks": hooks}, Expected: "id, type and name as written", Observed: fmt.Sprintf("%v", got)})
+						rep.Violate(Violation{Op: pos + " payload", Input: map[string]any{"type": name, "hooks": hooks}, Expected: "id, type, name and the type's own properties as written", Observed: fmt.Sprintf("%v", got)})
 					}
 				} else if !hooks {
 					// unknown name without hooks: an error, nothing, or the generic Object fallback carrying no wrong vocabulary type
@@ -143,7 +163,33 @@ func runC07(seed int64, n int, tier string, outDir string) (*Report, error) {
 				} else {
 					_ = ap.OnObject(it, func(o *ap.Object) error { nm = o.Name; return nil })
 				}
-				return okP && len(nm) == 1 && string(nm[0].Value) == "nm"
+				if !(okP && len(nm) == 1 && string(nm[0].Value) == "nm") {
+					return false
+				}
+				// the properties that only this Go type has ("carries the id and properties that were written")
+				rv := reflect.ValueOf(it)
+				if rv.Kind() == reflect.Pointer {
+					rv = rv.Elem()
+				}
+				if e, isEmoji := it.(*emoji); isEmoji {
+					rv = reflect.ValueOf(e.Object)
+				}
+				for _, op := range c07Own[want] {
+					f := rv.FieldByName(op.field)
+					if !f.IsValid() {
+						return false
+					}
+					got := ""
+					if f.Kind() == reflect.String {
+						got = f.String()
+					} else if x, ok := f.Interface().(ap.Item); ok && !ap.IsNil(x) {
+						got = string(x.GetLink())
+					}
+					if got != op.val {
+						return false
+					}
+				}
+				return true
 			}
 			// registry
 			reg, _ := ap.ItemTyperFunc(ap.ActivityVocabularyType(name))
@@ -153,7 +199,11 @@ func runC07(seed int64, n int, tier string, outDir string) (*Report, error) {
 			if name == "" {
 				typeMember = ""
 			}
-			doc := `{"id":"` + id + `"` + typeMember + `,"name":"nm"}`
+			doc := `{"id":"` + id + `"` + typeMember + `,"name":"nm"`
+			for _, op := range c07Own[want] {
+				doc += `,"` + op.term + `":"` + op.val + `"`
+			}
+			doc += `}`
 			top, _ := ap.UnmarshalJSON([]byte(doc))
 			cell("json-top", top, top != nil && payload(top))
 			outer, _ := ap.UnmarshalJSON([]byte(`{"id":"https://example.com/outer","type":"Note","attributedTo":` + doc + `,"tag":[` + doc + `,"https://example.com/t"]}`))
@@ -177,6 +227,15 @@ func runC07(seed int64, n int, tier string, outDir string) (*Report, error) {
 				v.FieldByName("ID").SetString(id)
 				v.FieldByName("Type").SetString(name)
 				v.FieldByName("Name").Set(reflect.ValueOf(ap.NaturalLanguageValues{{Ref: ap.NilLangRef, Value: ap.Content("nm")}}))
+				for _, op := range c07Own[want] {
+					if f := v.FieldByName(op.field); f.IsValid() {
+						if f.Kind() == reflect.String {
+							f.SetString(op.val)
+						} else {
+							f.Set(reflect.ValueOf(ap.IRI(op.val)))
+						}
+					}
+				}
 				if _, isEmoji := reg.(*emoji); !isEmoji {
 					if data, err := ap.GobEncode(reg); err == nil {
 						gobTop, _ = ap.GobDecode(data)
@@ -197,7 +256,7 @@ func runC07(seed int64, n int, tier string, outDir string) (*Report, error) {
 						rep.Distinguish(fmt.Sprintf("%s|%s|%v", name, pos, hooks), known)
 						g := structName(got)
 						if known && (g != want || !payload(got)) {
-							rep.Violate(Violation{Op: pos, Input: map[string]any{"type": name, "hooks": hooks}, Expected: want + " with id, type, name", Observed: fmt.Sprintf("%s %v", g, got), Class: cls})
+							rep.Violate(Violation{Op: pos, Input: map[string]any{"type": name, "hooks": hooks}, Expected: want + " with id, type, name and the type's own properties", Observed: fmt.Sprintf("%s %v", g, got), Class: cls})
 						}
 					}
 				}
